@@ -59,3 +59,17 @@ Example ex_scan_rejects : stop_ok [EStart 0; EResult 0 RFail 0; EStop 0; EStart 
                           stop_ok [ESetUp 1 HRaise; ESetUp 2 HOk] = false /\
                           stop_ok [EStart 0; EResult 0 RSkip 0; EStop 0; EStart 1] = true.
 Proof. vm_compute. auto. Qed.
+
+(* -j independence is not vacuous: a world with an un-tearable layer (resumption) and failing tests meets the
+   hypotheses; the process layouts differ, the reported results do not *)
+From ZT Require Import RunModes.
+Definition ex_w3 : rworld :=
+  {| lw := ex_lw;
+     lsp := [sp None None; sp (Some [HOk]) (Some [HOk]); sp (Some [HOk]) (Some [HNotImpl]); sp None (Some [HOk]); sp (Some [HOk]) (Some [HOk])];
+     tests := tests ex_w |}.
+Example ex_modes :
+  length (r_children (run ex_w3 (ex_o false 1))) = 1 /\ length (r_children (run ex_w3 (ex_o false 4))) = 4 /\
+  r_fail (run ex_w3 (ex_o false 1)) = r_fail (run ex_w3 (ex_o false 4)) /\ r_fail (run ex_w3 (ex_o false 1)) <> [] /\
+  r_err (run ex_w3 (ex_o false 1)) = r_err (run ex_w3 (ex_o false 4)) /\
+  r_ran (run ex_w3 (ex_o false 1)) = 6.
+Proof. vm_compute. repeat split; auto; discriminate. Qed.
